@@ -415,7 +415,13 @@ fn aggregate_batches(
         .iter()
         .any(|a| a.func == AggregateFunction::CountDistinct || a.distinct);
     if group_by.is_empty() && batches.len() == 1 && aggregates.len() == 1 && !has_distinct {
-        return aggregate_scalar_simd(&batches[0], &aggregates[0], schema);
+        // The fast path covers a subset of input types; anything it does not
+        // implement goes to the general path below, which answers the same
+        // statement when the input happens to arrive in several batches.
+        match aggregate_scalar_simd(&batches[0], &aggregates[0], schema) {
+            Err(QueryError::NotImplemented(_)) => {}
+            other => return other,
+        }
     }
 
     // Try vectorized path for supported aggregate functions
@@ -1211,7 +1217,13 @@ fn aggregate_batches_parallel(
         .iter()
         .any(|a| a.func == AggregateFunction::CountDistinct || a.distinct);
     if group_by.is_empty() && batches.len() == 1 && aggregates.len() == 1 && !has_distinct {
-        return aggregate_scalar_simd(&batches[0], &aggregates[0], schema);
+        // The fast path covers a subset of input types; anything it does not
+        // implement goes to the general path below, which answers the same
+        // statement when the input happens to arrive in several batches.
+        match aggregate_scalar_simd(&batches[0], &aggregates[0], schema) {
+            Err(QueryError::NotImplemented(_)) => {}
+            other => return other,
+        }
     }
 
     let timing = std::env::var("AGG_TIMING").is_ok();
